@@ -546,6 +546,15 @@ def gen_thr(seed, tier):
     return cases
 
 
+def close_case(case):
+    """a threaded case whose publisher never closes leaves its blocked subscribers waiting forever by design: keep a
+    close in the program (used while shrinking)"""
+    if case.engine != "pubt" or len(case.ops) < 3 or not case.ops[-1] or case.ops[-1][0] != 102: return case
+    prog = case.ops[2:-1]
+    if any(o in ([10], [12]) for o in prog): return case
+    return Case(case.engine, case.name, case.ops[:-1] + [[10], case.ops[-1]], case.meta)
+
+
 def nontrivial_thr(case, model_obs):
     delivered = woke = inter = False
     inflight = {}
